@@ -14,17 +14,26 @@ pub struct WsServer {
 
 impl WsServer {
     pub fn start(dbs: Arc<Databases>) -> WsServer {
-        let port = crate::http::free_port();
-        let addr = Arc::new(format!("127.0.0.1:{}", port));
-        let handle = std::thread::Builder::new().name(format!("ws-{}", port)).spawn(move || nundb::network::ws_ops::start_web_socket_client(dbs, addr)).unwrap();
-        for _ in 0..2000 {
-            if let Ok(s) = TcpStream::connect(("127.0.0.1", port)) {
-                drop(s);
-                return WsServer { port, handle: Some(handle) };
+        for _attempt in 0..8 {
+            let port = crate::http::free_port();
+            let addr = Arc::new(format!("127.0.0.1:{}", port));
+            let d = dbs.clone();
+            let handle = std::thread::Builder::new().name(format!("ws-{}", port)).spawn(move || nundb::network::ws_ops::start_web_socket_client(d, addr)).unwrap();
+            for _ in 0..2000 {
+                if handle.is_finished() {
+                    break;
+                }
+                if let Ok(s) = TcpStream::connect(("127.0.0.1", port)) {
+                    drop(s);
+                    if !handle.is_finished() {
+                        return WsServer { port, handle: Some(handle) };
+                    }
+                }
+                std::thread::sleep(Duration::from_millis(2));
             }
-            std::thread::sleep(Duration::from_millis(2));
         }
-        panic!("ws server did not start");
+        eprintln!("machinery: the websocket server could not be started on any port");
+        std::process::exit(2);
     }
 
     /// has the service thread (the ws event loop) ended?  It never should.
